@@ -147,8 +147,22 @@ func worker(t *testing.T) {
 			continue
 		}
 		if res.V != nil {
-			nviol++
 			sig := res.V.Sig()
+			// A violation is reported only if the same script reproduces it at least once
+			// more in a fresh run (DESIGN 2.8): residual nondeterminism (Go's select among
+			// ready cases) may make a run unrepeatable, and an alarm nobody can replay is
+			// not reported as a violation; it is counted and logged instead.
+			confirmed := false
+			for try := 0; try < 3 && !confirmed; try++ {
+				if r2 := e.Run(t, s); r2.V != nil && r2.V.Sig() == sig {
+					confirmed = true
+				}
+			}
+			if !confirmed {
+				emit(outLine{Kind: "unreproduced", I: i, Seed: rseed, Engine: e.Name(), Sig: sig, Msg: res.V.Msg, Script: s})
+				continue
+			}
+			nviol++
 			budget := shrinkBudget
 			if strings.Contains(","+os.Getenv("VERIF_KNOWN")+",", ","+sig+",") {
 				budget = 0 // a listed known finding: report it, do not spend time minimising it again
